@@ -9,15 +9,15 @@ Emit(file, S) == ndJsonSerialize(file, SetToSeq(S))
 
 Family == IOEnv.GEN_FAMILY
 ASSUME /\ PrintT(<<"family", Family>>)
-       /\ CASE Family = "G1" -> Emit(IOEnv.GEN_OUT, G1) /\ PrintT(<<"count", Cardinality(G1)>>)
-            [] Family = "G2" -> Emit(IOEnv.GEN_OUT, G2ok) /\ PrintT(<<"count", Cardinality(G2ok)>>)
-            [] Family = "W"  -> Emit(IOEnv.GEN_OUT, W) /\ PrintT(<<"count", Cardinality(W)>>)
-            [] Family = "L2"   -> Emit(IOEnv.GEN_OUT, L2)
-            [] Family = "DAG4" -> Emit(IOEnv.GEN_OUT, DAG4)
-            [] Family = "DAG5" -> Emit(IOEnv.GEN_OUT, DAG5)
-            [] Family = "DAG6" -> Emit(IOEnv.GEN_OUT, DAG6)
-            [] Family = "DG3"  -> Emit(IOEnv.GEN_OUT, DG3)
-            [] Family = "DG4"  -> Emit(IOEnv.GEN_OUT, DG4)
+       /\ CASE Family = "G1" -> Emit(IOEnv.GEN_OUT, G1(0)) /\ PrintT(<<"count", Cardinality(G1(0))>>)
+            [] Family = "G2" -> Emit(IOEnv.GEN_OUT, G2ok(0)) /\ PrintT(<<"count", Cardinality(G2ok(0))>>)
+            [] Family = "W"  -> Emit(IOEnv.GEN_OUT, W(0)) /\ PrintT(<<"count", Cardinality(W(0))>>)
+            [] Family = "L2"   -> Emit(IOEnv.GEN_OUT, L2(0))
+            [] Family = "DAG4" -> Emit(IOEnv.GEN_OUT, DAG4(0))
+            [] Family = "DAG5" -> Emit(IOEnv.GEN_OUT, DAG5(0))
+            [] Family = "DAG6" -> Emit(IOEnv.GEN_OUT, DAG6(0))
+            [] Family = "DG3"  -> Emit(IOEnv.GEN_OUT, DG3(0))
+            [] Family = "DG4"  -> Emit(IOEnv.GEN_OUT, DG4(0))
 VARIABLE done
 Init == done = TRUE
 Next == UNCHANGED done
